@@ -10,7 +10,7 @@ from sismic.exceptions import (CodeEvaluationError, ConflictingTransitionsError,
                                PreconditionError, PropertyStatechartError, StatechartError)
 from sismic.interpreter import Interpreter
 from sismic.model import Event, InternalEvent, MetaEvent, Transition
-from sismic.clock import SimulatedClock
+from sismic.clock import Clock, SimulatedClock
 
 from .encode import enc_event, enc_val, Unsupported
 
@@ -36,8 +36,8 @@ class LoggingEvaluator(PythonEvaluator):
         self._vp_cur = None
 
     def _vp_log(self, entry):
-        w, _ = _REGISTRY[self._vp_token]
-        if w is not None:
+        w, slot = _REGISTRY[self._vp_token]
+        if w is not None and slot == w.top:     # nested (property) interpreters do not log
             w.log.append(entry)
 
     def _vp_tid(self, t):
@@ -129,6 +129,18 @@ def err_json(world, slot, e):
     return {'class': 'OTHER:' + type(e).__name__, 'msg': str(e)[:200]}
 
 
+class ScriptClock(Clock):
+    """A clock whose value the harness sets at will (public `Clock` interface): used to move the
+    clock *during* a step (C13) — the interpreter must keep using the value sampled at the call."""
+
+    def __init__(self, value=0):
+        self.value = value
+
+    @property
+    def time(self):
+        return self.value
+
+
 class ListenerFailure(Exception):
     def __init__(self, lid):
         super().__init__(lid)
@@ -138,7 +150,8 @@ class ListenerFailure(Exception):
 class ImplWorld:
     """Mirror of `Sismic.World`: slots = real interpreters."""
 
-    def __init__(self, charts):
+    def __init__(self, charts, clock_mover=False):
+        self.clock_mover = clock_mover
         self.charts = charts            # list of Statechart
         self.slots = []                 # Interpreter
         self.trans = []                 # per slot: list of transition objects (identity index)
@@ -147,6 +160,7 @@ class ImplWorld:
         self.callbacks = []
         self.log = Log()
         self.unsupported = False
+        self.meta_loggers = {}
 
     # ---- helpers
     def tid(self, slot, t):
@@ -185,7 +199,10 @@ class ImplWorld:
         for k, v in it.context.items():
             if callable(v):
                 continue
-            ctx.append([k, enc_val(v)])
+            try:
+                ctx.append([k, enc_val(v)])
+            except Unsupported:
+                ctx.append([k, {'unsupported': repr(v)[:80]}])
         ctx.sort(key=lambda p: p[0])
         t = it.time
         return {'config': list(it.configuration), 'ctx': ctx, 'time': t,
@@ -213,8 +230,11 @@ class ImplWorld:
 
     def op_create(self, ci, ignore, ctx0, t0):
         slot = len(self.slots)
-        clock = SimulatedClock()
-        clock.time = t0
+        if self.clock_mover:
+            clock = ScriptClock(t0)
+        else:
+            clock = SimulatedClock()
+            clock.time = t0
         ok = True
         try:
             it = Interpreter(self.charts[ci], evaluator_klass=make_evaluator(self, slot),
@@ -225,7 +245,14 @@ class ImplWorld:
             raise
         self._new_slot(it)
         self.top = slot
-        it.attach(self._meta_logger(slot))
+        ml = self._meta_logger(slot)
+        self.meta_loggers[slot] = ml
+        it.attach(ml)
+        if self.clock_mover:
+            def mover(event, clock=clock):
+                if event.name in ('state entered', 'transition processed', 'event consumed'):
+                    clock.value += 7
+            it.attach(mover)
         return {'ok': ok}
 
     def op_queue(self, i, e):
@@ -236,10 +263,15 @@ class ImplWorld:
         self.slots[i].context[n] = v
         return None
 
+    def _set_clock(self, it, clock):
+        if isinstance(it.clock, ScriptClock):
+            it.clock.value = clock
+        elif it.clock.time != clock:
+            it.clock.time = clock
+
     def _exec_once(self, i, clock):
         it = self.slots[i]
-        if it.clock.time != clock:
-            it.clock.time = clock
+        self._set_clock(it, clock)
         self.top = i
         del self.log[:]
         try:
@@ -257,8 +289,7 @@ class ImplWorld:
 
     def op_execute(self, i, clock, max_steps):
         it = self.slots[i]
-        if it.clock.time != clock:
-            it.clock.time = clock
+        self._set_clock(it, clock)
         self.top = i
         del self.log[:]
         steps = []
@@ -317,29 +348,32 @@ class ImplWorld:
         return None
 
     def op_snapshot(self, i, how):
-        """Replace interpreter i by a pickled / deep-copied copy of itself (C18)."""
+        """Replace interpreter i by a pickled / deep-copied copy of itself, or (`*-keep`) take the
+        copy and keep using the original (C18)."""
+        if how == 'none':
+            return None
         it = self.slots[i]
-        # our own listeners hold references to this harness: detach them around the copy
-        own = [l for l in it._listeners if getattr(l, '_vp_meta_logger', False)]
-        for l in own:
-            it.detach(l)
+        # the harness's own listener closes over the harness: detach it around the copy
+        own = self.meta_loggers[i]
+        it.detach(own)
         try:
-            if how == 'pickle':
+            if how.startswith('pickle'):
                 cp = pickle.loads(pickle.dumps(it))
             else:
                 cp = copy.deepcopy(it)
         finally:
-            for l in own:
-                it.attach(l)
-        cp.attach(self._meta_logger(i))
+            it.attach(own)
+        if how.endswith('-keep'):
+            return None
+        cp.attach(own)
         self.slots[i] = cp
         self.trans[i] = list(cp.statechart.transitions)
         return None
 
 
-def run_case(case, charts):
+def run_case(case, charts, clock_mover=False):
     """charts: list of Statechart objects matching case['charts'].  Returns {'obs': [...]}"""
-    w = ImplWorld(charts)
+    w = ImplWorld(charts, clock_mover=clock_mover)
     obs = []
     for op in case['ops']:
         obs.append(w.op(op))
